@@ -266,8 +266,9 @@ def exemptOk (ex : Exempt) (depth : Nat) (resolvedTarget : List Str) : Bool :=
   decide (depth ≤ ex.depthBound) && (resolvedTarget.head? == some ex.first) && decide (resolvedTarget.length ≥ 2)
 
 /-- The two shapes of the symlink test that the translator recognises in the source (Gen/Paths.lean):
-`useExists`: the walk tests `current.exists() and current.is_symlink()` (true, the code today) or just
-`current.is_symlink()` (false); `guarded`: the walk runs only `if absolute != resolved` (true, today) or always. -/
+`useExists`: the walk tests `current.exists() and current.is_symlink()` (true; the code before commit 15db00f) or just
+`current.is_symlink()` (false; the code since); `guarded`: the walk runs only `if absolute != resolved` (true; before
+15db00f) or always (false; since). -/
 structure WalkCfg where
   useExists : Bool
   guarded : Bool
@@ -458,7 +459,7 @@ def resolveU (fs : Fs) (fuel : Nat) (parts : List Str) : Except UErr (List Str) 
       | _ => .ok p
 
 /-- `validate_source_uri(u, base)` for an absolute `base` (components).  `fixpoint`: the function re-resolves
-its result and demands a fixed point (Gen.sourceUriFixpoint; false today). -/
+its result and demands a fixed point (Gen.sourceUriFixpoint; true since commit 7419f17). -/
 def validateSourceUri (fs : Fs) (fuel : Nat) (fixpoint : Bool) (base : List Str) (u : Str) : Except UErr (List Str) :=
   match resolveU fs fuel base with
   | .error e => .error (if e = .resolveFailed then .loopRaise else e)
